@@ -327,12 +327,47 @@ class C10(Prop):
     def strategy(self, tier):
         cfg = gen_ir.Cfg(max_defs=4, max_children=3, max_width=1, max_libs=2, unnamed=True,
                          top="maybe", alphabet=NAMES, data=False)
-        return case_strategy(WEIGHTS, 30 if tier == "quick" else 80, cfg=cfg, names=NAMES, keys=KEYS,
+        from hypothesis import strategies as st
+        from vf import gen_verilog
+        from vf.props.c05 import NAMES as EDIF_NAMES
+
+        base = case_strategy(WEIGHTS, 30 if tier == "quick" else 80, cfg=cfg, names=NAMES, keys=KEYS,
                              own_bias=4, policies=("DEFAULT", "EDIF"))
+        ecfg = gen_ir.Cfg(unnamed=False, alphabet=EDIF_NAMES + NAMES, max_defs=4, max_children=3,
+                          max_width=2, share=True, top="always", lib_monotone=True, reorder=False,
+                          top_modes=["standalone"], data=False)
+        reader = st.one_of(
+            st.none(), st.none(),
+            st.fixed_dictionaries({"kind": st.just("edif"), "design": gen_ir.recipes(ecfg),
+                                   "stream": st.lists(st.integers(0, 63), min_size=8, max_size=20)}),
+            st.fixed_dictionaries({"kind": st.just("verilog"), "design": gen_verilog.designs(max_mods=3)}))
+        return st.tuples(base, reader).map(lambda t: dict(t[0], reader=t[1]))
 
     def run(self, case):
         res = Result()
         U = build_universe(case)
+        rd = case.get("reader")
+        if rd:
+            # a netlist built by one of the readers joins the universe ("built by hand, by the
+            # readers, or by cloning")
+            import spydrnet as sdn
+            from vf import gen_edif, gen_verilog, model
+            from vf.props.c05 import parse_text as parse_edif
+            from vf.props.c06 import parse_text as parse_verilog
+            try:
+                if rd["kind"] == "edif":
+                    Bx = gen_ir.build(rd["design"])
+                    nlr = parse_edif(gen_edif.render(model.canon(Bx.netlist), rd["stream"])[0])
+                else:
+                    d = dict(rd["design"])
+                    nlr = parse_verilog(gen_verilog.text_of(d)[0]) if gen_verilog.in_domain(d) else None
+            except Exception:  # noqa readers are judged by C05/C06
+                nlr = None
+            sdn.namespace_manager.default = case.get("policy", "DEFAULT")
+            if nlr is not None:
+                U.absorb(nlr)
+                U.refresh_outer()
+                res.label("reader-built-netlist-" + rd["kind"])
         mon = NamingMonitor(res, U)
         it = ops.Interpreter(U, [mon])
         mon.check(U.pool["netlist"] + U.pool["library"] + U.pool["definition"])
